@@ -116,6 +116,12 @@ func (sh *SignedHeader) ValidateBasic() error {
 		return ErrProposerAddressMismatch
 	}
 
+	// The signer's address must be the one derived from the public key it carries: otherwise
+	// anybody can sign with a key of their own under the proposer's address.
+	if sh.Signer.PubKey == nil || !bytes.Equal(sh.Signer.Address, KeyAddress(sh.Signer.PubKey)) {
+		return ErrProposerAddressMismatch
+	}
+
 	var (
 		bz  []byte
 		err error
